@@ -74,7 +74,7 @@ func (w *world) hasOpenChildren(t *inst) bool {
 func (w *world) apply(op Op) {
 	w.stats.Inc("op." + op.K)
 	switch op.K {
-	case "ins", "insempty", "insbig", "del", "setver", "lose":
+	case "ins", "insempty", "insbig", "insmax", "del", "setver", "lose":
 		// Outside C03 a trie is frozen while it has open children (a block
 		// state is not modified while a transaction state is open on it), so
 		// that no child is ever stale; C03 generates stale children on purpose.
@@ -84,7 +84,7 @@ func (w *world) apply(op Op) {
 		}
 	}
 	switch op.K {
-	case "ins", "insempty", "insbig":
+	case "ins", "insempty", "insbig", "insmax":
 		if t := w.get(op.T); t != nil {
 			w.opInsert(t, op)
 		}
@@ -183,6 +183,11 @@ func (w *world) opInsert(t *inst, op Op) {
 	}
 	if op.K == "insbig" {
 		v = bytes.Repeat([]byte{'x'}, util.MPTMaxAllowableNodeSize+1)
+	}
+	if op.K == "insmax" {
+		// the largest values Insert accepts: op.N bytes below the limit; the tag in front keeps writes unique
+		w.stats.Inc("probe.insert-near-max-size")
+		v = append(append([]byte{}, op.V...), bytes.Repeat([]byte{'y'}, util.MPTMaxAllowableNodeSize-int(op.N)-len(op.V))...)
 	}
 	before := t.mpt.GetRoot()
 	rel := pathRel(t.model, p)
